@@ -112,7 +112,7 @@ def run(tier, work):
         samples=samples, evaluations=len(exs), distinct_nontrivial=nontrivial,
         rule="create/seteuid/export histories under each master policy, printed by TLC while it runs the abstract spec Uids (BFS + -simulate); "
              "non-trivial = at least two different kinds of operation; distinct by JSON text",
-        exhaustive=False, events_validated=nevents, driver_failures=ncrash),
+        exhaustive=False, enumerated_by_tlc=nexh, events_validated=nevents, driver_failures=ncrash),
         time.time() - t0, len(verdict.new), ["scenario master implements the policies; creator_file by top-level directory"])
     return rc
 
